@@ -5,6 +5,7 @@ from .paths import render_path
 from . import rules_wrappers as W
 from .decorators import load_decorators
 from . import rules_keymaps as K
+from . import rules_rounding as RR
 
 TECH = 'static analysis: exhaustive path enumeration with typed exception edges over the decorator closures (ast), def-use normal forms, who-may-call rules'
 
@@ -180,9 +181,25 @@ def check_C17(ctx, tier):
             'configurations; keyword order is removed by the sorter; marker objects embedded in keys have constant reprs.')
 
 
+def check_C12(ctx, tier):
+    ws = _wrappers(ctx, tier)
+    RR.rule_W_RND(ctx, [d for d, _ in ws])
+    for d, paths in ws:
+        W.setup_abbrev(d)
+        W.rule_W_KEY(ctx, d, paths)
+        W.rule_W_ARGS(ctx, d, paths)
+    RR.rule_W_KEY_keygen(ctx, ctx.repo)
+    RR.rule_R_GUARD_STR_KW(ctx, ctx.repo)
+    RR.rule_R_NONE(ctx, ctx.repo)
+    ctx.assume('numeric results of round(), and whether type(x)(items) can rebuild arbitrary iterables (range, generators), are not decided')
+    return ('state.roundargs is rounded(tol) of the identity with rounded chosen by deep; the key path goes through it and the function '
+            'receives the originals (W-KEY, W-ARGS, also in klepto.keygen); every round() is dominated by isinstance(x, float); tol=None '
+            'bypasses rounding; no container is rebuilt through type(x)(...) on a path that admits str; no data dict is **-expanded.')
+
+
 CHECKS = {
     'C01': check_C01, 'C02': check_C02, 'C05': check_C05, 'C06': check_C06, 'C07': check_C07,
-    'C09': check_C09, 'C10': check_C10, 'C17': check_C17, 'C15': check_C15, 'C16': check_C16, 'C18': check_C18,
+    'C09': check_C09, 'C10': check_C10, 'C17': check_C17, 'C12': check_C12, 'C15': check_C15, 'C16': check_C16, 'C18': check_C18,
 }
 
 
